@@ -754,6 +754,21 @@ func (h *harness) runScript(s *script) *scriptResult {
 	case <-time.After(wdog()):
 		res.Hang = true
 		res.HangStack = allStacks()
+		// which mutexes are held while Run is stuck (non-blocking probes only)
+		for _, p := range h.probes(c) {
+			if strings.HasPrefix(p.name, "peersdb.peerdb_mutex") || strings.HasPrefix(p.name, "common.mutex_cfg") || strings.HasPrefix(p.name, "common.bw_mutex") {
+				continue
+			}
+			ok := false
+			for i := 0; i < 20 && !ok; i++ {
+				if ok = p.try(); !ok {
+					time.Sleep(2 * time.Millisecond)
+				}
+			}
+			if !ok {
+				res.Leaks = append(res.Leaks, p.name)
+			}
+		}
 		return res
 	}
 	res.Micros = time.Since(t0).Microseconds()
